@@ -13,7 +13,10 @@ pub mod c15;
 pub mod c12;
 pub mod c13;
 pub mod c14;
+pub mod c16;
+pub mod c17;
 pub mod c18;
+pub mod c19;
 pub mod common;
 
 use crate::report::Report;
@@ -26,6 +29,7 @@ pub fn run(id: &str, tier: &str) -> i32 {
         "C03" => c03::run(&rep),
         "C04" => c04::run(&rep),
         "C05" => c05::run(&rep),
+        "C06" => c06::run(&rep),
         "C07" => c07::run(&rep),
         "C08" => c08::run(&rep),
         "C09" => c09::run(&rep),
@@ -34,6 +38,8 @@ pub fn run(id: &str, tier: &str) -> i32 {
         "C15" => c15::run(&rep),
         "C12" => c12::run(&rep),
         "C13" => c13::run(&rep),
+        "C16" => c16::run(&rep),
+        "C17" => c17::run(&rep),
         "C18" => c18::run(&rep),
         "C14" => c14::run(&rep),
         _ => {
@@ -43,6 +49,10 @@ pub fn run(id: &str, tier: &str) -> i32 {
     }
 }
 
-pub fn worker(_args: &[String]) -> i32 {
-    2
+pub fn worker(args: &[String]) -> i32 {
+    match args.first().map(|s| s.as_str()) {
+        Some("c06") => c06::worker(args.get(1).map(|s| s.as_str()).unwrap_or("quick")),
+        Some("c19") => c19::worker(&args[1..]),
+        _ => 2,
+    }
 }
